@@ -58,7 +58,9 @@ end
 
 /-- the recursive calls treat the scalar types as one interpretation step does -/
 structure ScalarOk (S : Schema) (r : Rec) : Prop where
-  size : ∀ ty w, scalarWidth S ty = some w → ∀ v, r.size ty v = .ok w
+  size_eq : ∀ ty w, scalarWidth S ty = some w → ∀ v n, r.size ty v = .ok n → n = w
+  sizeInt : ∀ ty w s, S.find ty = some (.int w s) → ∀ i, r.size ty (.int i) = .ok w
+  sizeBytes : ∀ ty n, S.find ty = some (.bytes n) → ∀ b : Bytes, b.length = n → r.size ty (.bytes b) = .ok n
   decInt : ∀ ty w s, S.find ty = some (.int w s) → ∀ buf, r.dec ty buf = .ok (.int (decInt w s buf))
   decBytes : ∀ ty n, S.find ty = some (.bytes n) → ∀ buf : Bytes, n ≤ buf.length → r.dec ty buf = .ok (.bytes (buf.take n))
 
